@@ -120,6 +120,28 @@ def _must_answer(f, w) -> bool:
     return False
 
 
+def _callers_expect_none(f) -> bool:
+    """Every call of the helper `f` (from its own class or module) binds the answer to a name that the caller tests against
+    None / for truth: an explicit `return None` is then an answer, not an accident.  The helper's own recursive calls that
+    hand the answer on (`return self.f(...)`) are transparent."""
+    scope = list(f.cls.methods.values()) if f.cls is not None else list(f.module.funcs.values())
+    sites = 0
+    for m in scope:
+        mv = FuncView(m)
+        for c in mv.calls(f.name):
+            par = mv.parent(c)
+            if m is f and isinstance(par, ast.Return):
+                continue
+            sites += 1
+            if not (isinstance(par, ast.Assign) and len(par.targets) == 1 and isinstance(par.targets[0], ast.Name)):
+                return False
+            v = par.targets[0].id
+            tests = {n.text() for n in mv.cfg.nodes if n.kind == "test"}
+            if not tests & {f"{v} is None", f"{v} is not None", f"not {v}", v}:
+                return False
+    return sites > 0
+
+
 def _no_implicit_none(ck, repo, w):
     """A transformer or a rule that answers a value on one path answers one on every path: a path that falls off the
     end (or `return None`) hands None to the caller - `errors.extend(None)`, a None selection - and the document is
@@ -151,6 +173,8 @@ def _no_implicit_none(ck, repo, w):
             ok = len(bad) == 1 and bad[0][0] == "none" and set(fv.conditions(bad[0][1])) == {(g, "F")}
             ck.ob(f"{f.name}: None exactly for an absent `{g}`", ok, f, bad[0][1] if bad else f.node, construct=f"returns-value:{f.qualname}:optional")
             continue
+        if bad and all(k == "none" for k, _ in bad) and _callers_expect_none(f):
+            continue  # an optional answer every caller asks about before using it
         ck.ob(f"{f.qualname}: every exit returns a value", not bad, f, bad[0][1] if bad and bad[0][1] is not None else f.node, construct=f"returns-value:{f.qualname}",
               detail=str([k for k, _ in bad]))
     ck.count("value_returning_parsers_and_rule_methods", n, 70)
